@@ -5,7 +5,8 @@ What runs
 ---------
 1. TLC checks the implementation-shaped translation tables  spec/WinXlat.tla  (WindowsApiEmitter.queue_events)  and
    spec/FSEventsXlat.tla  (FSEventsEmitter.queue_events / queue_event / _is_recursive_event)  over an abstract file
-   system (names {a,b}, depth 2, an outside area), all histories of <= 2 (quick) / <= 4 (thorough) operations rendered
+   system (names {a,b}, depth 2, an outside area), all histories of <= 2 (quick) / <= 4 (thorough; FSEvents: <= 3 back
+   to back, <= 4 one at a time, <= 3 with inode re-use and sticky ItemCreated flags) operations rendered
    into native batches (all batch cuts, all FSEvents coalescings of adjacent same-item events, every placement of the
    reads / callbacks between the operations that the pacing allows), and  spec/Codec.tla  (framing of the
    two binary buffers: Encode ; Decode = identity, termination, no read past the buffer).  The main configs restrict
@@ -1383,7 +1384,9 @@ def validate(c, recs, uniq, heap="3g"):
     keys = sorted(uniq)
     pos = {k: i for i, k in enumerate(keys)}
     jobs = c.jobs if c is not None else 16
-    chunk = max(200, len(keys) // (jobs * 2) + 1)
+    if len(keys) < 40000:
+        jobs = max(1, jobs // 2)          # few traces: JVM start-up dominates, fewer and larger chunks
+    chunk = max(200, len(keys) // jobs + 1)
     verdicts, stats = tlc.validate_traces("XlatTrace", "XlatTrace.cfg", [uniq[k] for k in keys], chunk=chunk,
                                           parallel=jobs, heap=heap, dfs_queue=False)
     out = []
@@ -1488,6 +1491,11 @@ DESIGN_RUNS = {
     "FSEventsXlat": ("FSEventsXlat", "FSEventsXlat_quick.cfg", "FSEventsXlat_thorough.cfg",
                      ["T_CreatedRemoved", "T_Plain", "T_RenamedPair", "T_RenamedIn", "T_RenamedOut", "T_RootChanged"]),
     "Codec": ("Codec", "Codec_quick.cfg", "Codec_thorough.cfg", ["D_WinRecord", "D_WinEnd", "D_InoRecord", "D_InoEnd"]),
+    # thorough only: <= 4 operations delivered one at a time (B2B = FALSE).  The <= 4-operation back-to-back model
+    # (FSEventsXlat_deep.cfg, 6.8 million states, holds) is not part of the registered run: on a busy machine it alone
+    # can take longer than the tier's budget.
+    "FSEventsXlat@4": ("FSEventsXlat", None, "FSEventsXlat_thorough4.cfg",
+                       ["T_CreatedRemoved", "T_Plain", "T_RenamedPair", "T_RenamedIn", "T_RenamedOut", "T_RootChanged"]),
     # the FSEvents model with inode RE-USE and sticky ItemCreated flags as environment choices (<= 3 operations;
     # quick: recursive, operations one at a time, no root removal)
     "FSEventsXlat+reuse": ("FSEventsXlat", "FSEventsXlat_reuse_quick.cfg", "FSEventsXlat_reuse.cfg",
@@ -1591,12 +1599,12 @@ def run(c: checklib.Check):
 
     def tlc_job(item):
         name, (mod, cfg) = item
-        big = c.thorough and name.startswith("FSEventsXlat")
+        big = c.thorough and name in ("WinXlat", "FSEventsXlat@4")
         return name, cfg, tlc.run_tlc(mod, cfg, workers=max(w, c.jobs // 2) if big else w,
                                       coverage=not name.startswith("neg:"), timeout=1500, heap="8g")
 
-    order = ["FSEventsXlat", "FSEventsXlat+reuse", "WinXlat", "Codec"]      # the largest models first
-    items = [(n, (DESIGN_RUNS[n][0], DESIGN_RUNS[n][tier])) for n in order] + \
+    order = ["WinXlat", "FSEventsXlat@4", "FSEventsXlat+reuse", "FSEventsXlat", "Codec"]      # the largest models first
+    items = [(n, (DESIGN_RUNS[n][0], DESIGN_RUNS[n][tier])) for n in order if DESIGN_RUNS[n][tier]] + \
             [("neg:" + f, (v[0], v[1])) for f, v in NEG_RUNS.items()]
     pool_t = ThreadPoolExecutor(max_workers=4)
     design_future = pool_t.map(tlc_job, items)
